@@ -1,7 +1,8 @@
 ---- MODULE Trace_Processor ----
 (* Conformance layer: every call the real Run loop made on the fakes must be the next step of    *)
-(* Processor.tla (same operation, same cycle / segment / outcome) and the logged values (offset   *)
-(* returned by LoadOffset, offsets handed to the sink, offset committed) must equal the model's. *)
+(* Processor.tla (same operation, same cycle / segment / partition / outcome) and the logged     *)
+(* values (offset returned by LoadOffset, offsets handed to the sink, offset committed) must      *)
+(* equal the model's.                                                                             *)
 EXTENDS Processor
 TraceLog == ndJsonDeserialize("trace.ndjson")
 VARIABLE l
@@ -10,22 +11,25 @@ E == TraceLog[l]
 Cur(ev) == l <= Len(TraceLog) /\ E.ev = ev /\ l' = l + 1
 SetOf(s) == {s[i] : i \in DOMAIN s}
 TInit == Init /\ l = 1 /\ TLCSet(7, 0)
-TReset == /\ Cur("Reset") /\ E.store \in Stores /\ SetOf(E.all) = AllOffsets
+TReset == /\ Cur("Reset") /\ E.store \in Stores /\ \A p \in Parts : SetOf(E.all[p + 1]) = AllOf(p)
           /\ store' = E.store /\ cyc' = 0 /\ pc' = "idle" /\ idx' = 0 /\ loaded' = -1 /\ recs' = {} /\ lfsTodo' = {}
-          /\ lfsBad' = FALSE /\ ckpt' = -1 /\ persist' = -1 /\ sink' = {} /\ nf' = 0 /\ cycFaults' = 0
-          /\ cleanDone' = FALSE /\ hist' = <<>>
+          /\ lfsBad' = FALSE /\ lease' = -1 /\ claimCyc' = 0 /\ claimTodo' = <<>>
+          /\ ckpt' = [p \in Parts |-> -1] /\ persist' = [p \in Parts |-> -1] /\ sink' = [p \in Parts |-> {}]
+          /\ cached' = None /\ nf' = 0 /\ cycFaults' = 0 /\ cleanDone' = {} /\ hist' = <<>>
 TList == Cur("List") /\ List(E.ok) /\ cyc' = E.c
+TClaim == Cur("Claim") /\ Claim(E.ok) /\ cyc = E.c /\ Head(claimTodo) = E.p
+TLose == Cur("Lose") /\ Lose /\ cyc = E.c /\ lease = E.p
 TLoad == Cur("Load") /\ Load(E.ok) /\ cyc = E.c /\ idx = E.seg /\ (E.ok => loaded' = E.ret)
-TDecode == Cur("Decode") /\ Decode(E.ok) /\ cyc = E.c /\ idx = E.seg
+TDecode == Cur("Decode") /\ Decode(E.kind) /\ cyc = E.c /\ idx = E.seg /\ E.ok = (E.kind = "ok")
 TLfs == Cur("Lfs") /\ Lfs(E.ok) /\ cyc = E.c /\ idx = E.seg /\ E.off = Min(lfsTodo)
-TWrite == Cur("Write") /\ Write(E.ok) /\ cyc = E.c /\ idx = E.seg /\ SetOf(E.offs) = recs
-TCommit == Cur("Commit") /\ Commit(E.ok) /\ cyc = E.c /\ idx = E.seg /\ E.off = Max(recs)
+TWrite == Cur("Write") /\ Write(E.ok) /\ cyc = E.c /\ idx = E.seg /\ lease = E.p /\ SetOf(E.offs) = recs
+TCommit == Cur("Commit") /\ Commit(E.ok) /\ cyc = E.c /\ idx = E.seg /\ lease = E.p /\ E.off = Max(recs)
 \* the harness saw every goroutine of Run blocked again after tick c: the model must be waiting for the next tick
-TCycleEnd == Cur("CycleEnd") /\ pc = "idle" /\ cyc = E.c /\ UNCHANGED vars
+TCycleEnd == Cur("CycleEnd") /\ pc = "idle" /\ cyc = E.c /\ lease = E.lease /\ UNCHANGED vars
 TClose == Cur("Close") /\ pc = "idle" /\ UNCHANGED vars
 TEnd == Cur("End") /\ UNCHANGED vars
 Consumed == TLCSet(7, IF TLCGet(7) < l THEN l ELSE TLCGet(7))
-TNext == (TReset \/ TList \/ TLoad \/ TDecode \/ TLfs \/ TWrite \/ TCommit \/ TCycleEnd \/ TClose \/ TEnd) /\ Consumed
+TNext == (TReset \/ TList \/ TClaim \/ TLose \/ TLoad \/ TDecode \/ TLfs \/ TWrite \/ TCommit \/ TCycleEnd \/ TClose \/ TEnd) /\ Consumed
 TSpec == TInit /\ [][TNext]_tvars
 Reached == PrintT(<<"CONF", ToJson([reached |-> TLCGet(7), total |-> Len(TraceLog)])>>)
 ====
